@@ -20,7 +20,7 @@ import (
 	"verif/internal/model"
 )
 
-const rule = "(in addition a second value is parsed from a pristine copy and its buffer is inverted before any method is called on it: it must report what the first value reported) cases: an accepted input of each structure the property lists (certificate, key certificate, keys-and-cert incl. both fixed-size readers, destination, router identity, signature, offline signature, lease, Lease2, LeaseSet, EncryptedLeaseSet, LeaseSet2 and MetaLeaseSet with empty options/properties so that only identity, key, lease and signature parts are present) x a generated history of 1..4 steps from {invert the whole input buffer, zero it, overwrite a range, overwrite every byte slice previously returned by an accessor}. The input sits in a buffer with 64 spare bytes of capacity filled with a sentinel. Oracle: an observation = serialisation + a deep, pointer-following dump of the result of every exported argument-free method (two levels into returned library values); every observation after a step equals the first one, and the sentinel region is intact after every library call. Non-trivial: >= 1 overwrite touches the consumed region before an observation; distinct by (entry, input)."
+const rule = "(in addition the remainder slice a parser returns is overwritten, and a second value is parsed from a pristine copy and its buffer is inverted before any method is called on it: it must report what the first value reported) cases: an accepted input of each structure the property lists (certificate, key certificate, keys-and-cert incl. both fixed-size readers, destination, router identity, signature, offline signature, lease, Lease2, LeaseSet, EncryptedLeaseSet, LeaseSet2 and MetaLeaseSet with empty options/properties so that only identity, key, lease and signature parts are present) x a generated history of 1..4 steps from {invert the whole input buffer, zero it, overwrite a range, overwrite every byte slice previously returned by an accessor}. The input sits in a buffer with 64 spare bytes of capacity filled with a sentinel. Oracle: an observation = serialisation + a deep, pointer-following dump of the result of every exported argument-free method (two levels into returned library values); every observation after a step equals the first one, and the sentinel region is intact after every library call. Non-trivial: >= 1 overwrite touches the consumed region before an observation; distinct by (entry, input)."
 
 func TestMain(m *testing.M) { ev.Main(m, "C08", rule) }
 
@@ -304,6 +304,25 @@ func check(c Case, r *ev.Rec) error {
 			return fmt.Errorf("%s: the value changed after %s (step %d %s):%s", e.Name, what, i, st.Op, firstDiffLine(first.text, obs.text))
 		}
 		returned = obs.slices
+	}
+	// The remainder a parser returns is the caller's memory again: writing through that
+	// slice (receiving the next message into it, say) must not reach into the value either.
+	if e.HasRem && len(res.Rem) > 0 {
+		buf3 := append(make([]byte, 0, len(src)+8), src...)
+		res3 := e.Parse(buf3, c.Input.Typ)
+		if res3.Accepted && len(res3.Rem) > 0 {
+			for j := range res3.Rem {
+				res3.Rem[j] ^= 0xff
+			}
+			obs3, panics := observe(e, reparseOf(res3))
+			if len(panics) > 0 {
+				return fmt.Errorf("%s (returned remainder overwritten): %s", e.Name, strings.Join(panics, "; "))
+			}
+			if obs3.text != first.text {
+				return fmt.Errorf("%s: the value changed after the remainder slice the parser returned was overwritten:%s", e.Name, firstDiffLine(first.text, obs3.text))
+			}
+			r.Class("remainder-overwritten")
+		}
 	}
 	// A second value is parsed from a pristine copy of the input and its buffer is
 	// overwritten before any method has been called on it (a parser that defers its
